@@ -35,6 +35,14 @@ TRUSTED = ["CPython ast", "sa.consteval", "sa.bitslice"]
 
 WIDTHS = (12, 16, 32)
 
+GROUPIFY_REF = '''
+def groupify_string(string, group_size, separator=" "):
+    reversed_string = string[::-1]
+    num_groups = math.ceil((len(reversed_string) / group_size))
+    grouped_string = separator.join(reversed_string[i * group_size : (i + 1) * group_size] for i in range(num_groups))
+    return grouped_string[::-1]
+'''
+
 
 def run(ctx: Ctx) -> None:
     m = ctx.model
@@ -104,9 +112,12 @@ def run(ctx: Ctx) -> None:
         ("ToySimulation", "get_register_representations", "get_12_bit_representations", "int(self.state.program_counter)", "program_counter: UInt12"),
         ("ToySimulation", "get_register_representations", "get_16_bit_representations", "int(self.state.loaded_instruction)", "16-bit encoding (R19.fields)"),
     ]
+    from ..pathsym import subst as _subst
+    from ..wiring import _single_assigned
     for cn, mn, fn, arg, why in sites:
         f = m.method(cn, mn, own=True)
-        ok = any(isinstance(c.func, ast.Name) and c.func.id == fn and [ast.unparse(a) for a in c.args] == [arg] for c in calls_in(f.node))
+        al = _single_assigned(f.node)  # `state = self.state` and the like
+        ok = any(isinstance(c.func, ast.Name) and c.func.id == fn and [ast.unparse(_subst(a, al)) for a in c.args] == [arg] for c in calls_in(f.node))
         r.check(ok, f"{cn}.{mn}|{arg}", f.loc(), f"{cn}.{mn} no longer formats `{arg}` with {fn} ({why})")
     # every formatter call in the package is one of the recognised sites (widths cannot drift elsewhere)
     known_fn = {f"get_{n}_bit_representations" for n in WIDTHS} | {"get_n_bit_representations"}
@@ -336,8 +347,7 @@ def fmt_rule(ctx: Ctx) -> None:
         hf = fold_spec(hspec, Folder(m, mod, None, {hx.params[1]: Val(n)})) if ok_h and hspec is not None else None
         r.check(hf == "0" + str(n // 4) + "X", f"n={n}|hex-width", hx.loc(), f"hex format spec for n={n} is {hf!r}, expected {n // 4} upper-case digits")
     # grouping goes right to left
-    gtxt = " ".join(ast.unparse(gp.node).split())
-    ok = "reversed_string = string[::-1]" in gtxt and "return grouped_string[::-1]" in gtxt and \
-        "reversed_string[i * group_size:(i + 1) * group_size]" in gtxt and "separator.join(" in gtxt
-    r.check(ok, "groupify_string", gp.loc(), "digit grouping no longer counts groups from the right")
+    from ..flowspec import signature
+    ok = signature(m, gp) == signature(m, gp, GROUPIFY_REF)
+    r.check(ok, "groupify_string", gp.loc(), f"digit grouping no longer counts groups from the right (recovered: {signature(m, gp)[0]})")
     r.floor(17)
